@@ -171,6 +171,13 @@ func bootRemoting(seed uint64, tape *simkit.Tape, cfg BootCfg, ncfg simnet.Confi
 }
 
 func finishResult(res *Result, sim *simkit.Sim) {
+	// let everything that became runnable at this very instant (a timer that
+	// fired together with the end of the run) finish first: what is in the log,
+	// and hence the trace hash, must not depend on who wins that race
+	func() {
+		defer func() { recover() }()
+		synctest.Wait()
+	}()
 	if res.Violations == nil {
 		res.Violations = []simkit.Violation{}
 	}
